@@ -78,8 +78,17 @@ def run_solve(year, form_names, inputs, prompt_answers=None):
     store = hinputs.InputStore(cp)
     s = hsolver.Solver(store, forms.available_forms[year], prompt=None)
     out = {'exception': None, 'solved': None, 'solution': {}, 'unimplemented': [], 'unmet_inputs': {}, 'unmet_fields': {}, 'forms': []}
-    import sys as _sys
-    old = _sys.getrecursionlimit()
+    crash = {'line': None}
+    orig_attempt = hsolver.Solver._attempt_field
+
+    def attempt(self, field):
+        try:
+            return orig_attempt(self, field)
+        except BaseException:
+            if crash['line'] is None:
+                crash['line'] = field.name()
+            raise
+    hsolver.Solver._attempt_field = attempt
     try:
         out['solved'] = bool(s.solve(list(form_names)))
         sol = s.solution()
@@ -93,7 +102,10 @@ def run_solve(year, form_names, inputs, prompt_answers=None):
     except BaseException as e:  # noqa
         import traceback
         tb = traceback.extract_tb(e.__traceback__)
-        out['exception'] = {'type': type(e).__name__, 'msg': str(e)[:300], 'where': ['%s:%d:%s' % (f.filename.split('/habutax/')[-1], f.lineno, f.name) for f in tb[-4:]]}
+        out['exception'] = {'type': type(e).__name__, 'msg': str(e)[:300], 'crash_line': crash['line'],
+                            'where': ['%s:%d:%s' % (f.filename.split('/habutax/')[-1], f.lineno, f.name) for f in tb[-4:]]}
+    finally:
+        hsolver.Solver._attempt_field = orig_attempt
     return out
 
 
@@ -112,7 +124,7 @@ def eval_expect(exp, out):
         return out['solved'] is True and out['exception'] is None
     if k == 'exception':
         e = out['exception']
-        return e is not None and (exp.get('type') is None or e['type'] in exp['type'])
+        return e is not None and (exp.get('type') is None or e['type'] in exp['type']) and (exp.get('line') is None or e.get('crash_line') == exp['line'])
     if k == 'line_differs':
         # solved value of line differs from an expected decimal by more than tol
         v = out['solution'].get(exp['line'])
@@ -132,8 +144,8 @@ def eval_expect(exp, out):
 def summarize(out, exp):
     bits = ['solved=%s' % out['solved']]
     if out['exception']:
-        bits.append('exception=%s at %s' % (out['exception']['type'], out['exception']['where'][-1:]))
-    if 'line' in exp:
+        bits.append('exception=%s while attempting %s at %s' % (out['exception']['type'], out['exception'].get('crash_line'), out['exception']['where'][-1:]))
+    if 'line' in exp and exp['kind'] != 'exception':
         bits.append('%s=%s' % (exp['line'], out['solution'].get(exp['line'])))
     if out['unimplemented']:
         bits.append('unimplemented=%s' % out['unimplemented'][:4])
